@@ -166,17 +166,17 @@ Definition ex_tree : value :=
           (VsCons (VObj 3 (CRef 0 2)
                      (FMany 1 true (Dcl (CRef 0 3) false) (VsCons (VObj 4 (CRef 0 1) FNil) VsNil) FNil))
              VsNil))
-       (FOne 2 false (Dcl (CRef 0 1) false) (VAtom [64; 52]%N)
-          (FOne 3 true (Dcl (CRef 0 5) false) (VAtom [53]%N)
-             (FOne 4 true (Dcl (CRef 0 4) true) (VAtom [110]%N) FNil)))).
+       (FOne 2 false (Dcl (CRef 0 1) false) (VAtom 64)
+          (FOne 3 true (Dcl (CRef 0 5) false) (VAtom 53)
+             (FOne 4 true (Dcl (CRef 0 4) true) (VAtom 110) FNil)))).
 Definition ex_reg (n : nat) : bool := Nat.leb n 3 || Nat.eqb n 5.
 Definition ex_proc (p : nat) (v : value) : option value :=
-  match p, v with 1, VObj 4 _ _ => Some (VAtom [114]%N) | _, _ => None end.
+  match p, v with 1, VObj 4 _ _ => Some (VAtom 114) | _, _ => None end.
 
 Example C13_nonvacuous_tree :
   NoDup (ids_of (nodes (Dcl (CRef 0 0) false) ex_tree)) /\
   In (Dcl (CRef 0 3) false, VObj 4 (CRef 0 1) FNil) (nodes (Dcl (CRef 0 0) false) ex_tree) /\
-  In (Dcl (CRef 0 5) false, VAtom [53]%N) (nodes (Dcl (CRef 0 0) false) ex_tree) /\
+  In (Dcl (CRef 0 5) false, VAtom 53) (nodes (Dcl (CRef 0 0) false) ex_tree) /\
   ex_reg 1 = true /\ ex_reg 3 = true /\
   map (fun e => (fst e, ev_id e)) (log_of ex_reg ex_proc (Dcl (CRef 0 0) false) ex_tree) =
     [(1, Some 2); (3, Some 2); (1, Some 4); (3, Some 4); (2, Some 3); (3, Some 3); (5, None); (0, Some 1)] /\
@@ -185,11 +185,11 @@ Example C13_nonvacuous_tree :
     (FMany 0 true (Dcl (CRef 0 3) false)
        (VsCons (VObj 2 (CRef 0 1) FNil)
           (VsCons (VObj 3 (CRef 0 2)
-                     (FMany 1 true (Dcl (CRef 0 3) false) (VsCons (VAtom [114]%N) VsNil) FNil))
+                     (FMany 1 true (Dcl (CRef 0 3) false) (VsCons (VAtom 114) VsNil) FNil))
              VsNil))
-       (FOne 2 false (Dcl (CRef 0 1) false) (VAtom [64; 52]%N)
-          (FOne 3 true (Dcl (CRef 0 5) false) (VAtom [53]%N)
-             (FOne 4 true (Dcl (CRef 0 4) true) (VAtom [110]%N) FNil)))).
+       (FOne 2 false (Dcl (CRef 0 1) false) (VAtom 64)
+          (FOne 3 true (Dcl (CRef 0 5) false) (VAtom 53)
+             (FOne 4 true (Dcl (CRef 0 4) true) (VAtom 110) FNil)))).
 Proof.
   split; [repeat constructor; cbn; intuition discriminate|].
   split; [cbn; tauto|]. split; [cbn; tauto|]. repeat split.
